@@ -107,6 +107,7 @@ func canonicalGraphOf(g *oracle.G) (*oracle.G, error) {
 		if !oracle.IsPerm(p, g.N) {
 			return nil, fmt.Errorf("CanonicalIsomorph(%s, n=%d %v) = %v is not a permutation of 0..%d", rep, g.N, clipEdges(g), p, g.N-1)
 		}
+		watchPerm(fmt.Sprintf("CanonicalIsomorph(%s, n=%d)", rep, g.N), p)
 		cg := g.Induced(p)
 		// the library's own relabelling must give the same labelled graph
 		if eg, ok := gr.(graph.EditableGraph); ok {
@@ -131,7 +132,38 @@ func canonicalGraphOf(g *oracle.G) (*oracle.G, error) {
 	return first, nil
 }
 
+// permWatch remembers slices returned by the library together with a copy taken at once; a later call must not
+// change what an earlier call returned.
+type permWatch struct {
+	live, copy []int
+	what       string
+}
+
+var watchedPerms []permWatch
+
+func watchPerm(what string, p []int) {
+	watchedPerms = append(watchedPerms, permWatch{live: p, copy: append([]int{}, p...), what: what})
+}
+
+func checkWatchedPerms() error {
+	defer func() { watchedPerms = watchedPerms[:0] }()
+	for _, w := range watchedPerms {
+		if !eqInts(w.live, w.copy) {
+			return fmt.Errorf("the permutation returned by %s changed from %v to %v when CanonicalIsomorph was called again", w.what, w.copy, w.live)
+		}
+	}
+	return nil
+}
+
 func checkCanonCase(c canonCase, rec *Rec) error {
+	watchedPerms = watchedPerms[:0]
+	if err := checkCanonCaseInner(c, rec); err != nil {
+		return err
+	}
+	return checkWatchedPerms()
+}
+
+func checkCanonCaseInner(c canonCase, rec *Rec) error {
 	g := c.G.Model()
 	discrete := wlDiscrete(g)
 	rec.NonTrivial(!discrete)
